@@ -162,6 +162,10 @@ def check(rng, override=None):
 def oracle(ctx, hints, broken):
     try:
         viol, n = check(ctx['rng'])
+        import io, contextlib
+        with contextlib.redirect_stdout(io.StringIO()):
+            ve, ne = M.check_examples(['rbc', 'krusell_smith', 'hank', 'two_asset'] if ctx['tier'] == 'thorough' or broken else ['rbc', 'krusell_smith'], 'ge')
+        viol, n = viol + ve, n + ne
         v3, n3 = M.check_shift_ge(ctx['rng'], 12 if ctx['tier'] == 'quick' and not broken else 80, False, 'c05')
         viol, n = viol + v3, n + n3
         skipped = 0
